@@ -3,7 +3,7 @@
    stay the extracted inductive types. *)
 From Coq Require Import Extraction ExtrOcamlBasic.
 From Wencry Require Import Bytes AesSpec AesModel ModesSpec ModesModel HashSpec HashModel
-     Base64Spec Base64Model FileModel FileSpec PipeConc.
+     Base64Spec Base64Model FileModel FileSpec PipeConc CliModel.
 Extraction Language OCaml.
 Set Extraction Optimize.
 Extraction "model.ml"
@@ -17,4 +17,5 @@ Extraction "model.ml"
   Base64Model.is_valid_b64 Base64Model.get_key
   FileModel.enc FileModel.enc_writes FileModel.dec FileModel.ver FileModel.verify FileModel.loads_of FileModel.pipe_seq
   FileSpec.wenc_spec FileSpec.wenc_length
+  CliModel.cli
   PipeConc.tag_run PipeConc.tag_tr PipeConc.tag_event PipeConc.terminal PipeConc.output PipeConc.crashed PipeConc.enabled_count.
